@@ -4,7 +4,7 @@
 From Coq Require Import List String Ascii NArith Lia Bool Arith.
 Import ListNotations.
 Require Import P.Generated.Enums P.Spec.Values P.Generated.Tables P.Meta.Scan P.Model.Base P.Model.Token P.Model.Reader P.Model.Trace
-  P.Model.Writer P.Model.Pool P.Model.Walk P.Model.Builder P.Model.Atom P.Spec.Events P.Spec.Pool P.Spec.Valence P.Checks.C18_defs.
+  P.Model.Writer P.Model.Pool P.Model.Walk P.Model.Builder P.Model.Atom P.Spec.Events P.Spec.Pool P.Spec.Valence P.Spec.Normal P.Checks.C18_defs P.Checks.Token_defs.
 Local Open Scope string_scope.
 
 Definition show (l : list N) : string := string_of_list_ascii (map (fun c => if (c <? 128)%N then ascii_of_N c else "?"%char) l).
@@ -88,8 +88,9 @@ Definition run_walk_suite (cs : list walk_case) :=
   [("RESULT", "corr.walk_model", wr_model r); ("RESULT", "C08.walk_conformant", wr_conf r); ("RESULT", "C08.walk_joins_matched", wr_joins r);
    ("RESULT", "C13.walk_joins_smallest_free", wr_least r)].
 
+Definition nkev (e : ev) : ev := match e with ERoot k => ERoot (nk_kind k) | EExtend b k => EExtend b (nk_kind k) | x => x end.
 (* ------------------------------------------------------------ histories: writer and builder driven directly *)
-Record hist_case := HC { hc_h : list ev; hc_text : option (list N); hc_build : bres'; hc_reread : option (verdict * list ev) }.
+Record hist_case := HC { hc_h : list ev; hc_text : option (list N); hc_build : bres'; hc_reread : option (verdict * list ev); hc_rewrite : option (list N) }.
 Definition show_ev (e : ev) : string := match e with ERoot k => "R" ++ show (pp_kind k) | EExtend b k => "E" ++ show (pp_bond b) ++ show (pp_kind k)
   | EJoin b r => "J" ++ show (pp_bond b) ++ show (pp_rnum r) | EPop n => "P" ++ show_nat n end.
 Definition show_hist (h : list ev) : string := String.concat " " (map show_ev h).
@@ -98,8 +99,21 @@ Definition hist_model_ok (c : hist_case) : bool :=
   match hc_text c, hc_reread c with
   | Some t, Some (v, h) => let '(v', h') := rd t in verdict_eqb v v' && list_eqb ev_eqb h h'
   | _, _ => true end.
+(* C09 oracle on the implementation's own outputs: a conformant history is written, re-read to the same calls (up to
+   the shorthands) and re-written to the same text *)
+Definition hist_inverse_ok (c : hist_case) : bool :=
+  match hc_h c with
+  | [] => true
+  | _ => if conformant (hc_h c) then
+           match hc_text c, hc_reread c with
+           | Some t, Some (v, h') => verdict_eqb v VOk && list_eqb ev_eqb h' (map nkev (hc_h c)) && otext_eqb (hc_rewrite c) (Some t)
+           | _, _ => false end
+         else true
+  end.
 Definition run_hist_suite (cs : list hist_case) :=
-  [("RESULT", "corr.hist_model", bad hist_model_ok (fun c => show_hist (hc_h c)) cs)].
+  [("RESULT", "corr.hist_model", bad hist_model_ok (fun c => show_hist (hc_h c)) cs);
+   ("RESULT", "C09.history_inverse", bad hist_inverse_ok (fun c => show_hist (hc_h c)) cs);
+   ("RESULT", "C06.writer_nopanic", bad (fun c => negb (conformant (hc_h c)) || match hc_h c with [] => true | _ => match hc_text c with Some _ => true | None => false end end) (fun c => show_hist (hc_h c)) cs)].
 
 (* ------------------------------------------------------------ pool *)
 Record pool_case := PC { pc_hits : list (nat * nat); pc_out : list (option N) }.
@@ -139,5 +153,14 @@ Definition kres_eqb (a b : kres) := match a, b with KOk k, KOk k' => kind_eqb k 
 Definition kind_model_ok (c : kind_case) : bool :=
   list_eqb N.eqb (pp_kind (kc_k c)) (kc_text c) && tok_kind_eqb (read_atom (kc_probe c)) (kc_read c) && kres_eqb (invert (kc_k c)) (kc_inv c) &&
   opt_eqb kind_eqb (debracket (kc_k c) (kc_sum c)) (kc_db c) && list_eqb N.eqb (targets (kc_k c)) (kc_targets c) && Bool.eqb (is_aromatic (kc_k c)) (kc_arom c).
+(* C07 oracle on the implementation's own answers: the printed kind, followed by something that may follow an atom, reads back *)
+Fixpoint is_prefix (p l : list N) : bool := match p, l with [], _ => true | a :: p', b :: l' => N.eqb a b && is_prefix p' l' | _, _ => false end.
+Definition kind_in_range (k : kind) : bool := match k with AK_Bracket i _ _ _ _ m => match i with Some n => (n <? 1000)%N | None => true end && match m with Some n => (n <? 1000)%N | None => true end | _ => true end.
+Definition may_follow (k : kind) (tail : list N) : bool :=
+  match k with AK_Bracket _ _ _ _ _ _ => true | _ => match tail with [] => true | c :: _ => existsb (N.eqb c) (P.Checks.Token_defs.bond_chars ++ P.Checks.Token_defs.atom_starts ++ P.Checks.Token_defs.digit_chars ++ [37; 40; 41; 46]%N) end end.
+Definition kind_reads_back (c : kind_case) : bool :=
+  if is_prefix (kc_text c) (kc_probe c) && kind_in_range (kc_k c) && may_follow (kc_k c) (skipn (List.length (kc_text c)) (kc_probe c))
+  then tok_kind_eqb (kc_read c) (TOk (nk_kind (kc_k c)) (List.length (kc_text c))) else true.
 Definition run_kind_suite (cs : list kind_case) :=
-  [("RESULT", "corr.kind_model", bad kind_model_ok (fun c => show (kc_text c) ++ " | " ++ show (kc_probe c)) cs)].
+  [("RESULT", "C07.kind_reads_back_in_position", bad kind_reads_back (fun c => show (kc_probe c)) cs);
+   ("RESULT", "corr.kind_model", bad kind_model_ok (fun c => show (kc_text c) ++ " | " ++ show (kc_probe c)) cs)].
